@@ -296,10 +296,13 @@ class MPContext(BaseMPContext, StandardBaseContext):
 
     def clone(ctx):
         """
-        Create a copy of the context, with the same working precision.
+        Create a copy of the context, with the same working precision
+        and settings.
         """
         a = ctx.__class__()
         a.prec = ctx.prec
+        a.trap_complex = ctx.trap_complex
+        a.pretty = ctx.pretty
         # companion contexts that some functions (zetazero, nzeros,
         # primepi2, ...) compute with
         a._mp = a
